@@ -107,6 +107,11 @@ def dec(x):
     raise TypeError('cannot decode %r' % (x,))
 
 
+def rebuild(x):
+    """One deterministic builder: through JSON text, so no two sub-objects are shared (pickle memo caveat, issue #54)."""
+    return dec(json.loads(json.dumps(enc(x))))
+
+
 def case_hash(case):
     data = json.dumps(enc(case), sort_keys=True).encode('utf-8')
     return hashlib.sha1(data).hexdigest()[:20]
